@@ -32,13 +32,13 @@ MANIFEST = dict(
          "sub-select, upper-case, literal; 39 kinds for pairs) x statement shapes (keyword case, DISTINCT/ALL, comments, WHERE/ORDER/LIMIT, joins, UNION, parentheses, "
          "interpolation) x follow-up steps (filter, derive, select, exclusion, take, sort, aggregate, group, window, join on either side, append, let), relation "
          "literals and from_text (csv, both json layouts), plus random compositions: the inner SQL text run BY ITSELF on SQLite tells the relation's true "
-         "columns, the frame semantics of the pipeline gives the expected result columns of the compiled program.",
+         "columns, the frame semantics of the pipeline gives the expected result columns of the compiled program; set operations whose top is pruned / reordered around them (chained derives, double appends) are judged on SQLite row by row, and every recorded call of the positional mapper is replayed through Model.Positional (theorems under C07).",
     note="The alias layer is not mirrored in Lean (covered by the result-column comparison only); whether the Lowerer's requests "
          "always satisfy the hypothesis WF of wildcards_exact is not proved (exercised from source by the exclusion stream). Dialects other than sqlite/generic are compared on the text of the final projection, not executed.",
     technique="Lean 4 proofs on the select-item deduplication kernel (hook-level correspondence) + result-column oracle on SQLite", ref="4/C05")
 
 
-import anchortrace
+import anchortrace, appendshapes, postrace
 
 
 def enc_item(it):
@@ -470,12 +470,18 @@ def run(ctx):
     explore("hidden-sort-key-generic", None, 0, SAFE, "sql.generic", cases=hidden)
     explore("seed", ctx.rng, 200 if quick else 2500, FULL)
     explore("generic", ctx.rng, 100 if quick else 1000, SAFE, "sql.generic")
+    # set operations match their inputs by position: when the top is pruned / reordered around the UNION, the value under each result
+    # column must still be the value of that column in both branches (rows judged against rows computed from the tables)
+    appendshapes.run(ctx)
     # the mirror of extract_atomic (limiting SELECT included) and of determine_select_columns: every recorded call replayed
     n_ev, n_bad, hooked = anchortrace.run_suite(ctx, [c.prql for c in hidden] + [relgen.make_case(random.Random(5058 + i), **FULL).prql for i in range(150 if quick else 1500)],
                                                 "extract", targets=("sql.sqlite", "sql.postgres"))
     if hooked:
         ctx.obligation("correspondence: extract_atomic / determine_select_columns = Model.Anchor.extractAtomic / determineSelect on every recorded call; "
                        "the returned Select is the requested output", n_bad == 0 and n_ev > 0, f"{n_ev} recorded calls replayed, {n_bad} differ")
+        n_pm, n_pmbad, _ = postrace.run_suite(ctx, [p_["prql"] for p_ in appendshapes.programs()], "positional", targets=("sql.sqlite", "sql.postgres"))
+        ctx.obligation("correspondence: the positional mapper of set operations = Model.Positional on every recorded call", n_pmbad == 0 and n_pm > 0,
+                       f"{n_pm} recorded calls replayed, {n_pmbad} differ")
     else:
         ctx.assumptions.append("the trace hooks are not available in this tree: the extract_atomic mirror was not compared this run")
     ctx.obligation("oracle: result columns = final frame (all unlisted cases)", not [v for v in ctx.violations if v["kind"] == "failing-input"], "")
